@@ -5291,6 +5291,8 @@ class CodegenCtx:
                 4: 2147483647,
                 8: (1 << 63)-1
             }.get(width, None)
+            if maxval is None:
+                raise IllegalDFAStateError(f"Unsupported integer size {width} (supported sizes, in bytes: 1, 2, 4, 8)")
             if not signed:
                 maxval += 1
         # TODO: customization point for non 32-bit machines
